@@ -225,6 +225,17 @@ CHECKS = {
    ref="DESIGN.md section 4 (C19)"),
 }
 
+CHECKS["C20"] = dict(
+   technique="Coq proof that, over every interleaving of request handlings whose steps only read shared state, no two accesses conflict and each request computes what it computes alone, with the premise discharged by a translator-regenerated inventory of every access to package-level variables and API/Client receiver fields in the emitted code (closed by computation) + concurrent calls through one API value and one generated client under the race detector with per-call unique values (PARTIAL: Go memory model and stdlib not modelled)",
+   text="C20_shared_state_is_only_read (regenerated obligation), C20_race_free, C20_isolation: for every set of threads made of local steps "
+        "and reads of shared locations, every schedule, every thread that has finished: its private state equals the one of its solo run and "
+        "the shared store is unchanged. Tie: the access inventory is recomputed from ~150 freshly generated packages on every run; "
+        "16x60 (quick) / 64x200 (thorough) concurrent client calls per package and GOMAXPROCS in {1,4,16} through one API value and one "
+        "LocalClient, -race, each call checked against the digest of its own parameters.",
+   note="PARTIAL: Go memory model, net/http, encoding/json and user code are outside the model; the translator's choice of shared locations "
+        "and its syntactic read/write classification are trusted.",
+   ref="DESIGN.md section 4 (C20)")
+
 ALL = ["C%02d" % i for i in range(1, 21)]
 
 def main():
